@@ -55,9 +55,11 @@ bool ParentedEntity::hasAncestor(const ParentedEntityPtr &entity) const
 {
     bool hasAncestor = false;
     ParentedEntityPtr parent = pFunc()->mParent.lock();
-    if (parent == entity) {
+    if (parent == nullptr) {
+        hasAncestor = false;
+    } else if (parent == entity) {
         hasAncestor = true;
-    } else if (parent) {
+    } else {
         hasAncestor = parent->hasAncestor(entity);
     }
 
